@@ -76,3 +76,26 @@ Definition second_opener (first mine : Z * Z) : option (Z * Z) :=
   if beq (name_date first) (name_date mine)
   then (if header_matches first mine then Some first else None)
   else Some mine.
+
+(* ---- replay inside Coq (no extraction, no OCaml) of the observations of
+        harness vh_c09: span cases (now, weekends file, error?, begin, end)
+        and share cases ---- *)
+Definition span_case_ok (c : Z * bytes * bool * Z * Z) : bool :=
+  let '(now, wk, is_err, b, e) := c in
+  match weekend_of_bytes wk with
+  | None => is_err
+  | Some w => negb is_err && (fst (counter_span now w) =? b) && (snd (counter_span now w) =? e)
+  end.
+Definition share_case_ok (c : Z * Z * Z * Z * bool * Z * Z) : bool :=
+  let '(now0, w0, now1, w1, opened, b2, e2) := c in
+  let mine := counter_span now1 w1 in
+  (fst mine =? b2) && (snd mine =? e2) &&
+  match second_opener (counter_span now0 w0) mine with
+  | None => negb opened
+  | Some s => opened && (fst s =? b2) && (snd s =? e2)
+  end.
+Fixpoint failing_from {A} (f : A -> bool) (i : nat) (l : list A) : list nat :=
+  match l with
+  | [] => []
+  | x :: l' => if f x then failing_from f (S i) l' else i :: failing_from f (S i) l'
+  end.
